@@ -21,12 +21,12 @@ META = {
     ],
     "floors": {
         "quick": {"time_triples_compared": 20000, "implicit_links": 5000, "explicit_JOINED_END": 200, "explicit_JOINED_START": 200,
-                  "eq_multi": 200, "unrolled_programs": 1000},
+                  "eq_multi": 200, "unrolled_programs": 1000, "registry_reassignments": 800},
         "thorough": {"time_triples_compared": 200000, "implicit_links": 50000, "explicit_JOINED_END": 2000, "eq_multi": 2000},
     },
 }
 
-CLASSES = ["implicit", "explicit", "span", "zero", "nested", "nested_explicit", "span-hostile"]
+CLASSES = ["implicit", "explicit", "span", "zero", "nested", "nested_explicit", "span-hostile", "wide", "long", "deepnest"]
 
 
 def plan(tier: str, seed: int) -> List[Dict[str, Any]]:
@@ -44,6 +44,20 @@ def check_program(prog: Dict[str, Any], acc: Acc):
             acc.finding("link/" + ("explicit" if "explicit" in v["what"] else "implicit"), v["what"], case, v)
         info = common.compare_times(built, acc, "built", built.top.mnodes, case)
         common.local_equations(info["ops"], info["raw"], acc, case, "built")
+        # ---- another duration assignment for the SAME circuit: every registry key is (re-)assigned - some for the first time, the
+        #      library read its default 0.0 until now - and the operations listed before are read again, then a fresh listing
+        if prog.get("reassign_registry"):
+            for k, v in prog["reassign_registry"].items():
+                ctx.duration_registry.set_registry_at(k, v)
+                ctx.S.reg[k] = v
+            acc.count("registry_reassignments")
+            old_raw, old_sh = snap.raw_times(info["ops"]), snap.shadow_times(info["ops"])
+            if any(abs(a[0] - b[0]) > common.TOL or abs(a[1] - b[1]) > common.TOL for a, b in zip(old_raw, old_sh)):
+                acc.finding("stale-memo/registry-reassigned", "times reported after the registry durations were (re-)assigned differ from the memo-free evaluation", case,
+                            {"reassigned": prog["reassign_registry"]})
+            else:
+                info_r = common.compare_times(built, acc, "reassigned", built.top.mnodes, case)
+                common.local_equations(info_r["ops"], info_r["raw"], acc, case, "reassigned")
         # unroll a FRESH instance of the same program (observing before unrolling is a C03 history, not C01)
         built2 = bp.build(prog, bp.Ctx(prog.get("settings")))
         stats: Dict[str, int] = {}
@@ -69,7 +83,11 @@ def check_program(prog: Dict[str, Any], acc: Acc):
 def gen_case(rng: random.Random, cls: str) -> Dict[str, Any]:
     if cls == "span-hostile":
         return gen.gen_span_hostile(rng)
-    return gen.gen_program(rng, cls)
+    over = {"p_reg_dur": 0.4} if rng.random() < 0.3 else {}
+    prog = gen.gen_program(rng, cls, **over)
+    if over:
+        prog["reassign_registry"] = {k: rng.choice(gen.DURS) for k in gen.REG_KEYS}
+    return prog
 
 
 def run_shard(shard: Dict[str, Any]) -> Acc:
